@@ -2,6 +2,7 @@ package main
 
 import (
 	"math/rand"
+	"regexp"
 	"strconv"
 	"strings"
 
@@ -207,6 +208,133 @@ func implTableParse(a []string) string {
 	return "ok " + msgString(msg.ProtoReflect())
 }
 
+func hasAutoFixed(fs []*tField) bool {
+	for _, f := range fs {
+		// (a field that must be present is not an optional field either: E2011 is raised for its blank cell)
+		if (f.prop.fixed && f.prop.size == 0) || f.prop.present || hasAutoFixed(f.sub) {
+			return true
+		}
+	}
+	return false
+}
+
+// forceSized gives every horizontal list fixed:true and an explicit size; false if the sheet has none
+func forceSized(fs []*tField, r *rand.Rand) bool {
+	any := false
+	for _, f := range fs {
+		if f.card == 'l' && (f.layout == 'h' || f.layout == 'd') {
+			f.prop.fixed, f.prop.size = true, 1+r.Intn(4)
+			any = true
+		}
+		if forceSized(f.sub, r) {
+			any = true
+		}
+	}
+	return any
+}
+
+// blankLastElements blanks the data cells of the last element (index ≥ 2) of every horizontal aggregate
+func blankLastElements(rows [][]string, o tpOpts) {
+	nr, dr := int(o.nr)-1, int(o.dr)-1
+	if nr < 0 || nr >= len(rows) || dr < 0 {
+		return
+	}
+	maxIdx := map[string]int{}
+	for _, n := range rows[nr] {
+		if m := trailingIndexRe.FindStringSubmatch(n); m != nil {
+			if k, _ := strconv.Atoi(m[2]); k > maxIdx[m[1]] {
+				maxIdx[m[1]] = k
+			}
+		}
+	}
+	for c, n := range rows[nr] {
+		for pre, k := range maxIdx {
+			if k >= 2 && strings.HasPrefix(n, pre+strconv.Itoa(k)) {
+				for x := dr; x < len(rows); x++ {
+					if c < len(rows[x]) {
+						rows[x][c] = ""
+					}
+				}
+			}
+		}
+	}
+}
+
+var trailingIndexRe = regexp.MustCompile(`^(.*[^0-9])([0-9]+)([^0-9]*)$`)
+
+// dropBlankColumns removes columns of a (non-transposed) sheet whose data cells are all blank: columns of plain
+// fields, and element columns of a horizontal aggregate only from its highest index downwards and never its first
+// element (element 1 carries the aggregate's type; without any element column there is no aggregate to speak of).
+func dropBlankColumns(rows [][]string, o tpOpts, r *rand.Rand) [][]string {
+	nr, dr := int(o.nr)-1, int(o.dr)-1
+	if nr < 0 || nr >= len(rows) || dr >= len(rows) || dr < 0 {
+		return nil
+	}
+	names := rows[nr]
+	blank := func(c int) bool {
+		for x := dr; x < len(rows); x++ {
+			if c < len(rows[x]) && rows[x][c] != "" {
+				return false
+			}
+		}
+		return true
+	}
+	// highest element index per aggregate prefix+suffix
+	maxIdx := map[string]int{}
+	for _, n := range names {
+		if m := trailingIndexRe.FindStringSubmatch(n); m != nil {
+			k, _ := strconv.Atoi(m[2])
+			if k > maxIdx[m[1]] {
+				maxIdx[m[1]] = k
+			}
+		}
+	}
+	drop := map[int]bool{}
+	for c, n := range names {
+		if n == "" || !blank(c) || r.Intn(2) == 0 {
+			continue
+		}
+		if m := trailingIndexRe.FindStringSubmatch(n); m != nil {
+			// an element column: only the columns of the LAST element, all of them blank, and not element 1
+			k, _ := strconv.Atoi(m[2])
+			if k < 2 || k != maxIdx[m[1]] {
+				continue
+			}
+			ok := true
+			for c2, n2 := range names {
+				if strings.HasPrefix(n2, m[1]+m[2]) && !blank(c2) {
+					ok = false
+				}
+			}
+			if !ok {
+				continue
+			}
+			for c2, n2 := range names {
+				if strings.HasPrefix(n2, m[1]+m[2]) {
+					drop[c2] = true
+				}
+			}
+			continue
+		}
+		drop[c] = true
+	}
+	if len(drop) == 0 {
+		return nil
+	}
+	out := make([][]string, len(rows))
+	for x := range rows {
+		for c := range rows[x] {
+			if !drop[c] {
+				out[x] = append(out[x], rows[x][c])
+			}
+		}
+		if out[x] == nil {
+			out[x] = []string{}
+		}
+	}
+	return out
+}
+
 func coreOf(res string) string {
 	f := strings.Fields(res)
 	if len(f) >= 5 && f[0] == "err" {
@@ -223,13 +351,32 @@ func init() {
 		g := &tGen{r: r}
 		for i := 0; i < n; {
 			fs := g.sheet()
+			// every fourth sheet: its horizontal lists carry an explicit size next to fixed:true (the size, not the
+			// number of element columns, decides the padding), and the pair is mostly a column removal
+			sized := r.Intn(4) == 0 && forceSized(fs, r)
 			var dt []string
 			tdescTokens(fs, &dt)
 			for j := 0; j < 4 && i < n; j++ {
 				o := genTPOpts(r)
 				o.transpose = false
 				rows := g.buildSheet(fs, o, false)
-				kind := []string{"transpose", "pad", "permute", "padrows"}[r.Intn(4)]
+				kind := []string{"transpose", "pad", "permute", "padrows", "dropblank"}[r.Intn(5)]
+				if sized && r.Intn(4) != 0 {
+					kind = "dropblank"
+				}
+				if kind == "dropblank" {
+					// clause (d): every field optional (sheet option); lists whose size IS the number of element columns
+					// (fixed:true without size) are left out — there the column is not "an optional field's column"
+					if hasAutoFixed(fs) {
+						kind = "pad"
+					} else {
+						o.optional = true
+						rows = g.buildSheet(fs, o, false)
+						if r.Intn(2) == 0 {
+							blankLastElements(rows, o)
+						}
+					}
+				}
 				o2 := o
 				var rows2 [][]string
 				switch kind {
@@ -288,6 +435,11 @@ func init() {
 					rows2 = append([][]string{}, rows...)
 					for x := 0; x < 1+r.Intn(2); x++ {
 						rows2 = append(rows2, make([]string, len(rows[0])))
+					}
+				case "dropblank":
+					rows2 = dropBlankColumns(rows, o, r)
+					if rows2 == nil {
+						continue
 					}
 				case "permute":
 					if len(rows) == 0 || len(rows[0]) < 2 {
